@@ -171,6 +171,74 @@ def run_schedule(scripts, schedule):
     return trace, bad
 
 
+def _fine_run(scripts, prefix, bound, stack):
+    """one execution on the real lock with a scheduling point also right AFTER every mutex release (finer than the
+    co-simulation, no model involved): replay `prefix`, continue non-preemptively, push the preemption-bounded alternatives.
+    Returns the schedule at which a writer was inside together with another thread, or None."""
+    casbin = common.use_repo()
+    import casbin.util.rwlock as rwmod  # noqa
+
+    sc = S.Sched()
+    sc.yield_after_release = True
+    undo = S.install(rwmod, sc)
+    try:
+        lock = rwmod.RWLockWrite()
+    finally:
+        undo()
+    guards = (lock.gen_rlock(), lock.gen_wlock())
+    for tid, script in enumerate(scripts):
+        c = sc.spawn(tid, _worker, sc, lock, tid, script, guards, False)
+        c.info.update(role=script[0] if script else "r", part="idle", round=0)
+    sched, cur, used, pos = [], None, len([1 for _ in ()]), 0
+    try:
+        while True:
+            r = sc.runnable_set()
+            if not r:
+                return None
+            if pos < len(prefix):
+                tid = prefix[pos][0]
+                used = prefix[pos][1]
+                if tid not in r:
+                    return None
+            else:
+                tid = cur if cur in r else r[0]
+                for alt in r:
+                    if alt != tid:
+                        cost = 1 if cur in r else 0
+                        if used + cost <= bound:
+                            stack.append(sched + [(alt, used + cost)])
+            sc.step(tid)
+            sched.append((tid, used))
+            cur = tid
+            pos += 1
+            inside = [(t, sc.ctl[t].info["role"]) for t in sc.order if sc.ctl[t].info.get("part") == "in" and sc.ctl[t].state[0] not in ("done", "crashed")]
+            if len(inside) > 1 and any(role == "w" for _, role in inside):
+                return [t for t, _ in sched]
+            if any(sc.ctl[t].state[0] == "crashed" for t in sc.order) or len(sched) > 400:
+                return None
+    finally:
+        sc.abort()
+
+
+def fine_exclusion_stream(res, max_execs):
+    """exclusion under instruction-level pre-emption points of the REAL methods (after every mutex release): a writer is
+    never inside together with another thread"""
+    for scripts in (("w", "w"), ("w", "r"), ("r", "w"), ("ww", "r"), ("w", "w", "r"), ("wr", "w")):
+        stack, n = [[]], 0
+        while stack and n < max_execs:
+            prefix = stack.pop()
+            n += 1
+            bad = _fine_run(scripts, prefix, 2, stack)
+            res.evaluations += 1
+            res.count("fine-exclusion-execution")
+            if bad is not None:
+                res.violation({"signature": "C16:exclusion:fine", "stream": "fine", "scripts": list(scripts), "schedule": bad,
+                               "what": f"threads {list(scripts)} on the real RWLockWrite, pre-emption also right after a mutex release: under the schedule {bad} a writer is inside together with another thread",
+                               "expected": "writer alone", "observed": "two threads inside"})
+                break
+        res.nontrivial.add(hash(("fine", scripts)))
+
+
 def explore(scripts, max_execs, rng_seed=None, exhaustive=True, keep_every=1):
     """all schedules of `scripts` on the real lock, depth-first with state hashing (states equal up to a permutation
     of threads with equal scripts are identified).  With exhaustive=False: `max_execs` random schedules."""
@@ -343,6 +411,7 @@ def run(ctx):
     stages = ["quick"] if not ctx["deep"] else (["thorough"] if ctx["proof_ok"] else ["quick", "thorough"])
     for stage in stages:
         _stage(ctx, res, stage, prog, gen_is_exp, tr_err)
+        fine_exclusion_stream(res, 600 if stage == "quick" else 6000)
         if res.spec_violations:
             break
     return res
@@ -442,6 +511,9 @@ def _stage(ctx, res, stage, prog, gen_is_exp, tr_err):
 
 
 def replay(obj):
+    if obj.get("stream") == "fine":
+        prefix = [(t, 0) for t in obj["schedule"]]
+        return _fine_run(tuple(obj["scripts"]), prefix, 10 ** 6, []) is not None
     scripts = tuple(obj["scripts"])
     if obj.get("signature") == "share":
         out = explore(scripts, 200000, None, True)
